@@ -196,6 +196,54 @@ def check_spec(label, spec):
     except Exception as e:  # noqa
         out.append(("C09/load-of-valid-message-raises:%s" % type(e).__name__,
                     label))
+    # a custom codec (documented extension point) that reads ANOTHER table
+    # of the same loaded IR while one table is being decoded
+    try:
+        import gtirb.serialization as ser_mod
+
+        uu = [u for u in irgen.all_uuids(spec)][:4]
+        spec2 = dict(spec)
+        spec2["aux"] = dict(spec["aux"])
+        spec2["aux"]["verif_plain"] = ("sequence<UUID>", list(uu))
+        msg = irgen.spec_to_message(spec2, PV)
+        msg.aux_data["verif_re"].type_name = \
+            "sequence<tuple<verif_reenter,UUID>>"
+        msg.aux_data["verif_re"].data = R.u64(len(uu)) + b"".join(
+            b"n" + u.bytes for u in uu)
+        holder = []
+
+        class Reenter(ser_mod.Codec):
+            @staticmethod
+            def decode(raw_bytes, *, serialization=None, subtypes=(),
+                       get_by_uuid=None):
+                holder[0].aux_data["verif_plain"].data
+                return raw_bytes.read(1)
+
+            @staticmethod
+            def encode(out_, item, *, serialization=None, subtypes=()):
+                out_.write(item)
+
+        glob = g.AuxData.serializer
+        glob.codecs["verif_reenter"] = Reenter
+        try:
+            y = g.IR.load_protobuf_file(io.BytesIO(irgen.file_bytes(msg, PV)))
+            holder.append(y)
+            idx, _ = containment_index(y)
+            val = y.aux_data["verif_re"].data
+            for (note, r), u in zip(val, uu):
+                if idx.get(u) is not None and r is not idx[u]:
+                    out.append(("C09/auxdata-not-resolved-after-reentrant-"
+                                "read", "%s: a codec read another table of "
+                                "the IR; entry for %s is %s"
+                                % (label, u, type(r).__name__)))
+                    break
+        finally:
+            glob.codecs.pop("verif_reenter", None)
+    except Exception as e:  # noqa
+        import traceback
+
+        out.append(("C09/reentrant-read-raises:%s" % type(e).__name__,
+                    "%s: %s" % (label, traceback.format_exc()[-300:])))
     # a record listed twice in its parent (same UUID, same content): the file
     # may be rejected, but a loaded IR must hold ONE object for that UUID
     for which in ("symbols", "proxies", "sections", "byte_intervals",
